@@ -511,12 +511,7 @@ class DynamicSlicer:
         # dominator nodes on which the current instruction is control dependent. We also
         # handle the special case where there is a loop in the CDG.
         dominator_nodes = cdg.get_ancestors(node)
-        dominated_nodes = cdg.get_descendants(node)
-        if any(
-            isinstance(dominator_node, BasicBlockNode)
-            for dominator_node in dominator_nodes
-            if dominator_node not in dominated_nodes
-        ):
+        if any(isinstance(dominator_node, BasicBlockNode) for dominator_node in dominator_nodes):
             self._logger.debug("CONTROL DEPENDENCIES (DOMINATED): %s", instr)
             context.instr_ctrl_deps.add(instr)
 
